@@ -57,3 +57,20 @@ Section DepCall.
   Definition free_params (sig : list (string * T)) (bound : list string) : list (string * T) :=
     filter (fun kv => negb (existsb (String.eqb (fst kv)) bound)) sig.
 End DepCall.
+
+(* DependenceFunction.__init__: every keyword argument whose name is a parameter of the user function is bound with
+   functools.partial, one partial per key, in keyword order (a later partial with the same key would override an earlier one);
+   keyword arguments whose name is not a parameter are ignored *)
+Section DepBind.
+  Variable F : Type.      (* dependence-function objects *)
+  Fixpoint kw_set (k : string) (d : F) (acc : list (string * F)) : list (string * F) :=
+    match acc with
+    | [] => [(k, d)]
+    | (k', d') :: r => if String.eqb k k' then (k, d) :: r else (k', d') :: kw_set k d r
+    end.
+  Fixpoint dep_bind (sig : list string) (kwargs : list (string * F)) (acc : list (string * F)) : list (string * F) :=
+    match kwargs with
+    | [] => acc
+    | (k, d) :: r => if existsb (String.eqb k) sig then dep_bind sig r (kw_set k d acc) else dep_bind sig r acc
+    end.
+End DepBind.
